@@ -107,6 +107,8 @@ UNIT = dict(
          sig=GP + r'acquire_if_equal\(const concurrent_ptr<T>& p,\s*const MarkedPtr& expected,\s*std::memory_order order\) noexcept', py_post=p_ref,
          c_sig='static _Bool gp_acquire_if_equal(struct guard* self, mptr* p_p, mptr expected, int order)',
          must_fire={'A_LOAD': 2, 'self_call:reset': 1, 'method:enter_region': 1, 'method:leave_region': 1, 'method:reset': 1}),
+    dict(G, id='rg_ctor', file=F, sig=r'inline stamp_it::region_guard::region_guard\(\) noexcept', c_sig='static void sg_rg_ctor(void)', must_fire={'method:enter_region': 1}),
+    dict(G, id='rg_dtor', file=F, sig=r'inline stamp_it::region_guard::~region_guard\(\)', c_sig='static void sg_rg_dtor(void)', must_fire={'method:leave_region': 1}),
     dict(G, id='gp_reset', file=F, sig=GP + r'reset\(\) noexcept',
          c_sig='static void gp_reset(struct guard* self)', must_fire={'method:leave_region': 1, 'method:reset': 1}),
     dict(G, id='gp_reclaim', file=F, sig=GP + r'reclaim\(Deleter d\) noexcept',
@@ -126,6 +128,7 @@ UNIT = dict(
     dict(id='gp_ctor', entry='h_gp_ctor', unwindset=UW, cls='unbounded'),
     dict(id='gp_assign', entry='h_gp_assign', unwindset=UW, cls='unbounded'),
     dict(id='gp_reset', entry='h_gp_reset', unwindset=UW, cls='unbounded'),
+    dict(id='region_guard', entry='h_region_guard', unwindset=UW, cls='unbounded'),
     dict(id='gp_reclaim', entry='h_gp_reclaim', unwindset=UW, cls='unbounded'),
     dict(id='gp_acquire', entry='h_gp_acquire', unwindset=UW, cls='unbounded'),
     dict(id='gp_acquire_int', entry='h_gp_acquire', mode='INT', unwindset=UW, cls='unbounded', note='other threads store arbitrary values into p between the two loads'),
@@ -141,5 +144,5 @@ UNIT = dict(
   },
   loop_obligation={'RESTART': 'stamp.conserve'},
   replays={'stamp.dtor.hands_over_all': dict(src='replay_retire.cpp'), 'stamp.conserve': dict(src='replay_retire.cpp'), 'stamp.free.below_tail': dict(src='replay_retire.cpp')},
-  canaries=['add_retired.append', 'add_retired.first', 'add_retired.threshold', 'dtor.all_deleted', 'dtor.deleted', 'dtor.empty_list', 'dtor.handed_over', 'dtor.no_control_block', 'dtor.single_node_left', 'dtor.whole_list_handed_over', 'enter.first_block', 'enter.nested', 'enter.outermost', 'global.all_deleted', 'global.deleted', 'global.kept', 'global.nothing', 'global.restart_taken', 'global.three_chunks_back', 'gp_acquire.entered', 'gp_acquire.first_load_failed', 'gp_acquire.if_equal', 'gp_acquire.kept_region', 'gp_acquire.plain', 'gp_acquire_int.second_load_failed', 'gp_copy_assign.done', 'gp_copy_assign.self', 'gp_copy_ctor.done', 'gp_ctor.nonnull', 'gp_ctor.null', 'gp_move_assign.done', 'gp_move_assign.self', 'gp_move_ctor.done', 'gp_reclaim.done', 'gp_reset.nonnull', 'gp_reset.null', 'leave.hand_over', 'leave.keep_local', 'leave.nested', 'leave.was_last', 'local.all_deleted', 'local.deleted', 'local.empty', 'local.kept', 'local.prefix'],
+  canaries=['region_guard.done', 'add_retired.append', 'add_retired.first', 'add_retired.threshold', 'dtor.all_deleted', 'dtor.deleted', 'dtor.empty_list', 'dtor.handed_over', 'dtor.no_control_block', 'dtor.single_node_left', 'dtor.whole_list_handed_over', 'enter.first_block', 'enter.nested', 'enter.outermost', 'global.all_deleted', 'global.deleted', 'global.kept', 'global.nothing', 'global.restart_taken', 'global.three_chunks_back', 'gp_acquire.entered', 'gp_acquire.first_load_failed', 'gp_acquire.if_equal', 'gp_acquire.kept_region', 'gp_acquire.plain', 'gp_acquire_int.second_load_failed', 'gp_copy_assign.done', 'gp_copy_assign.self', 'gp_copy_ctor.done', 'gp_ctor.nonnull', 'gp_ctor.null', 'gp_move_assign.done', 'gp_move_assign.self', 'gp_move_ctor.done', 'gp_reclaim.done', 'gp_reset.nonnull', 'gp_reset.null', 'leave.hand_over', 'leave.keep_local', 'leave.nested', 'leave.was_last', 'local.all_deleted', 'local.deleted', 'local.empty', 'local.kept', 'local.prefix'],
 )
